@@ -41,6 +41,11 @@ package datastore
 //   otherwise [SbiSet] ++ INTENDED modifies (one per new intent, owner and priority of that intent)
 //             ++ [CONFIG modify] ++ [TimerStart unless rollback], cut at the first error.
 
+// the version of an intent recorded for rollback carries the priority of the content that was loaded from the store
+//@ pred snapshotOK(ti) = ti != nil && ((len(ti.updates) == 0 && ti.priority == 2147483647) ||
+//@        (len(ti.updates) > 0 && ti.updates[0] != nil && ti.priority == ti.updates[0].priority))
+//@ pred snapshotsOK(t) = allstr(k, present(t.oldIntents, k) && !old(present(t.oldIntents, k)) ==> snapshotOK(t.oldIntents[k]))
+
 //@ func (*Datastore).lowlevelTransactionSet
 //@   props C03 C07
 //@   requires d != nil && d.config != nil && d.cacheClient != nil && inv_Transaction(transaction)
@@ -75,6 +80,10 @@ package datastore
 //@            present(transaction.newIntents, evarg(emitted(i), CacheModify, 1)) &&
 //@            evarg(emitted(i), CacheModify, 2) == transaction.newIntents[evarg(emitted(i), CacheModify, 1)].priority)
 //@   loop 0 invariant ntrace() == n0 && inv_Transaction(transaction)
+// the version of an intent recorded for rollback carries the priority of the content loaded from the store
+//@   loop 0 invariant snapshot_priority_is_content_priority [C05 C02]: called(AddIntentContent) ==>
+//@            callarg(AddIntentContent, 0, 3) == callres(GetFirstPriorityValue) && callarg(GetFirstPriorityValue, 0, 0) == callarg(AddIntentContent, 0, 4) &&
+//@            callarg(AddIntentContent, 0, 4) == callres(LoadIntendedStoreOwnerData, 0, 0) && callarg(AddIntentContent, 0, 2) == 1
 //@   loop 1 invariant ntrace() == n0 && inv_Transaction(transaction) && vrOK(validationResult)
 //@   loop 2 invariant ntrace() == n0 && inv_Transaction(transaction) && vrOK(validationResult)
 //@   loop 3 invariant inv_Transaction(transaction) && $map == transaction.newIntents && !dryRun && !anyErrors(validationResult)
